@@ -174,6 +174,12 @@ pub fn catalogue_medium() -> Vec<StreamSpec> {
         mk(vec![ready(&[]), ItemSpec::MessageLongSizes(vec![fs(5), fs(0), fs(9)]), msg(&[2])]),
         mk(vec![ready(&[("a", 1), ("b", 2), ("c", 3), ("d", 4)]), msg(&[0]), msg(&[0]), msg(&[0, 0])]),
         mk(vec![msg(&[3]), msg(&[3, 3])]), // no READY at all
+        // many frames / many items in few bytes: one read holds dozens of decode steps
+        mk(vec![ready(&[]), msg(&[0; 31]), msg(&[1])]),
+        mk(vec![ready(&[]), msg(&[1; 33])]),
+        mk(vec![ready(&[]), msg(&[0; 64]), msg(&[1, 0])]),
+        mk(vec![ready(&[]), msg(&[0; 130])]),
+        mk((0..45).map(|i| if i == 0 { ready(&[]) } else { msg(&[i % 2]) }).collect()),
         StreamSpec { greeting: true, items: vec![ready(&[]), msg(&[40, 40])], truncate: Some(64 + 26 + 50) },
         StreamSpec { greeting: true, items: vec![ready(&[]), msg(&[300])], truncate: Some(64 + 26 + 5) },
     ]
@@ -182,10 +188,17 @@ pub fn catalogue_medium() -> Vec<StreamSpec> {
 pub fn gen_item(src: &mut Src<'_>, max_exp: usize) -> ItemSpec {
     match src.weighted(&[10, 3, 1, 1]) {
         0 => {
-            let n = src.range(1, 6);
+            // mostly a handful of frames; sometimes dozens or hundreds of small ones (work per
+            // decode call / per read then depends on how the bytes are segmented)
+            let many = src.weighted(&[12, 2, 1]);
+            let n = match many {
+                0 => src.range(1, 6),
+                1 => src.range(7, 70),
+                _ => src.range(71, 400),
+            };
             let frames = (0..n)
                 .map(|_| {
-                    let len = match src.weighted(&[5, 3, 2, 1]) {
+                    let len = match if many == 0 { src.weighted(&[5, 3, 2, 1]) } else { src.weighted(&[8, 1]) } {
                         0 => src.range(0, 3),
                         1 => src.range(4, 300),
                         2 => src.pick(&[254usize, 255, 256, 257, 8190, 8191, 8192, 8193, 16384, 65535, 65536, 65537]),
